@@ -156,3 +156,100 @@ Theorem same_handler_history_transparent g pl (h : list (list nat)) :
 Proof.
   intros Hwf Hnd. rewrite run_history_no_removal. now apply pool_run_from_start.
 Qed.
+
+(** ---- histories WITH store removals (the executor order cache is keyed on the requested outputs
+        that still have an operation AND on the set of loaded nodes) ---- *)
+Fixpoint run_history_fresh (s : run_state) (h : list segment)
+  : res (run_state * list (list (list (name * value) * list name))) :=
+  match h with
+  | [] => Ok (s, [])
+  | (rm, idxs) :: r =>
+      do x <- run_batches_fresh (drop_stores s rm) idxs;
+      let '(s1, obs) := x in
+      do y <- run_history_fresh s1 r;
+      let '(s2, rest) := y in
+      Ok (s2, obs :: rest)
+  end.
+
+Definition visible_h (r : res (run_state * list (list (list (name * value) * list name))))
+  : res (cnet * pool * list (list (list (name * value) * list name))) :=
+  match r with
+  | Ok (s, obs) => Ok (rs_net s, rs_pool s, obs)
+  | Err e => Err e
+  end.
+
+Lemma NoDup_keys_filter {A} (f : name * A -> bool) : forall l, NoDup (map fst l) -> NoDup (map fst (filter f l)).
+Proof.
+  induction l as [|x r IH]; intros H; simpl; [constructor|].
+  inversion H as [|? ? Hx Hr]; subst. destruct (f x); simpl; [|now apply IH].
+  constructor; [|now apply IH]. intros Hin. apply Hx.
+  apply in_map_iff in Hin. destruct Hin as [y [Hy Hin]]. apply filter_In in Hin.
+  apply in_map_iff. exists y. tauto.
+Qed.
+
+Lemma remove_stores_keys : forall rm p, NoDup (map fst (stores p)) ->
+  NoDup (map fst (stores (fold_left remove_store rm p))).
+Proof.
+  induction rm as [|n r IH]; intros p H; simpl; [exact H|]. apply IH.
+  unfold remove_store, remove. simpl. now apply NoDup_keys_filter.
+Qed.
+
+Lemma drop_stores_inv g s rm : RunInv g s -> RunInv g (drop_stores s rm).
+Proof.
+  intros [Hnet [Hnd Hall]]. split; [|split]; cbn [drop_stores rs_net rs_pool rs_cache]; auto.
+  now apply remove_stores_keys.
+Qed.
+
+Lemma visible_fresh_states s idxs s1 obs s' s1' obs' :
+  rs_net s = rs_net s' -> rs_pool s = rs_pool s' ->
+  run_batches_fresh s idxs = Ok (s1, obs) -> run_batches_fresh s' idxs = Ok (s1', obs') ->
+  rs_net s1 = rs_net s1' /\ rs_pool s1 = rs_pool s1' /\ obs = obs'.
+Proof.
+  intros Hn Hp H1 H2. pose proof (run_batches_fresh_ext idxs s s' Hn Hp) as Hv.
+  rewrite H1, H2 in Hv. simpl in Hv. inversion Hv. auto.
+Qed.
+
+Lemma run_history_fresh_ext : forall h s s',
+  rs_net s = rs_net s' -> rs_pool s = rs_pool s' ->
+  visible_h (run_history_fresh s h) = visible_h (run_history_fresh s' h).
+Proof.
+  induction h as [|[rm idxs] r IH]; intros s s' Hn Hp; simpl; [now rewrite Hn, Hp|].
+  assert (Hn' : rs_net (drop_stores s rm) = rs_net (drop_stores s' rm)) by exact Hn.
+  assert (Hp' : rs_pool (drop_stores s rm) = rs_pool (drop_stores s' rm)) by (cbn [drop_stores rs_pool]; now rewrite Hp).
+  pose proof (run_batches_fresh_ext idxs _ _ Hn' Hp') as Hv.
+  destruct (run_batches_fresh (drop_stores s rm) idxs) as [[s1 o1]|e1] eqn:E1;
+    destruct (run_batches_fresh (drop_stores s' rm) idxs) as [[s1' o1']|e1'] eqn:E2; simpl in Hv; try discriminate.
+  - inversion Hv as [[H1 H2 H3]]. subst o1'. simpl. specialize (IH s1 s1' H1 H2).
+    destruct (run_history_fresh s1 r) as [[s2 rest]|e]; destruct (run_history_fresh s1' r) as [[s2' rest']|e'];
+      simpl in IH; try discriminate; simpl; inversion IH; subst; reflexivity.
+  - simpl. inversion Hv. reflexivity.
+Qed.
+
+(** Every history of runs on one handler and context - stores removed from the pool between the
+    runs included - returns, batch by batch, what fresh executor caches return. *)
+Theorem history_with_removals_transparent g : forall h s,
+  wf_base g -> RunInv g s ->
+  visible_h (run_history s h) = visible_h (run_history_fresh s h).
+Proof.
+  induction h as [|[rm idxs] r IH]; intros s Hwf Hinv; [reflexivity|]. simpl.
+  pose proof (drop_stores_inv g s rm Hinv) as Hd.
+  pose proof (pool_run_cache_transparent g idxs _ Hwf Hd) as Hv.
+  destruct (run_batches (drop_stores s rm) idxs) as [[s1 o1]|e1] eqn:E1;
+    destruct (run_batches_fresh (drop_stores s rm) idxs) as [[s1' o1']|e1'] eqn:E2; simpl in Hv; try discriminate.
+  - inversion Hv as [[H1 H2 H3]]. subst o1'. simpl.
+    pose proof (run_batches_inv g idxs _ s1 o1 Hwf Hd E1) as Hinv1.
+    specialize (IH s1 Hwf Hinv1).
+    pose proof (run_history_fresh_ext r s1 s1' H1 H2) as Hext.
+    destruct (run_history s1 r) as [[s2 rest]|e]; destruct (run_history_fresh s1 r) as [[s2f restf]|ef];
+      simpl in IH; try discriminate;
+      destruct (run_history_fresh s1' r) as [[s2' rest']|e']; simpl in Hext; try discriminate; simpl.
+    + inversion IH; inversion Hext; congruence.
+    + inversion IH; inversion Hext; congruence.
+  - simpl. inversion Hv. reflexivity.
+Qed.
+
+Corollary history_with_removals_from_start g pl h :
+  wf_base g -> NoDup (map fst (stores pl)) ->
+  visible_h (run_history {| rs_net := g; rs_pool := pl; rs_cache := empty_cache |} h)
+  = visible_h (run_history_fresh {| rs_net := g; rs_pool := pl; rs_cache := empty_cache |} h).
+Proof. intros Hwf Hnd. apply (history_with_removals_transparent g); [exact Hwf | now apply RunInv_start]. Qed.
